@@ -184,6 +184,7 @@ def run(run):
                                 if 0 <= v_ <= 2 * pi_f:
                                     eps = sym.Fr(1, 10 ** 9)
                                     samples |= {v_, max(v_ - eps, sym.Fr(0)), min(v_ + eps, 2 * pi_f)}
+        claims = {}
         for lonv in sorted(samples):
             deg = float(lonv / pi_f * 180)
             claim = []
@@ -207,6 +208,7 @@ def run(run):
                     claim.append((x, y))
             if unknown:
                 break
+            claims[lonv] = list(claim)
             on_boundary = min(abs(deg - b_) for b_ in (0, 90, 180, 270, 360)) < 1e-12
             inside = [] if on_boundary else [p_ for p_, (lo, hi) in owner.items() if lo < deg < hi]
             touching = [p_ for p_, (lo, hi) in owner.items() if lo - 1e-12 <= deg <= hi + 1e-12 or (deg < 1e-12 and hi == 360) or (deg > 360 - 1e-12 and lo == 0)]
@@ -228,6 +230,56 @@ def run(run):
             run.holds("C12.R3", sc, None, "level-1 quadrants accepted by the score function match the equatorial corners of the level-1 table "
                       "(%d longitudes x 4 positions: every k*pi/8 and both sides of every constant the longitude is compared with; "
                       "every boundary longitude is accepted by a touching tile)" % len(samples))
+    # ---- R2 (nesting across depths): a second way of picking the level-1 tile (e.g. a fast path for depth == 1) must pick, for every
+    # longitude, the tile the scoring loop picks for deeper lookups -- in particular on the quadrant meridians
+    if rows and rs.returns and not (locals().get("unknown")) and locals().get("claims"):
+        order = [(0, 0), (1, 0), (0, 1), (1, 1)]           # list order of _create_level1_tiles (C04.R2)
+        l1call = ("call", ("sym", "_create_level1_tiles"), (cs_p,), ())
+        L1 = lv1[0].term[2][2] if lv1 and len(lv1[0].term[2]) >= 3 else None
+        alts = []
+        for pc, t, n in r.returns:
+            if t[0] == "nt" and t[1] == "Tile":
+                continue            # the corner-less level-0 tile
+            if t[0] == "sym" and "@" in t[1]:
+                continue            # the tile left by the descent loop
+            if [c for c in pc if c[0] == "loop"]:
+                continue
+            alts.append((pc, t, n))
+        for pc, t, n in alts:
+            base = t[1] if t[0] in ("sub", "item") else None
+            idx = (t[2] if t[0] == "sub" else num(t[2])) if base is not None else None
+            if base != l1call or L1 is None:
+                run.undecided("C12.R2", f, n, "toast_tile_for_point also returns %s, a tile not obtained from the level-1 selection loop and the descent" % show(t)[:100], kind="alternative-return")
+                continue
+
+            def hook(x, rec):
+                if x[0] == "call" and x[1] == ("sym", "int") and len(x[2]) == 1:
+                    v = rec(x[2][0])
+                    return UNKNOWN if v is UNKNOWN else int(v)
+                return NotImplemented
+            bad = None
+            for lonv, claim in sorted(claims.items()):
+                if not claim:
+                    continue
+                first = [p_ for p_ in order if p_ in claim][0]
+                k = teval(idx, {L1: lonv, PI: pi_f}, [hook])
+                if k is UNKNOWN:
+                    # the index may be written over the raw longitude as well
+                    k = teval(idx, {L1: lonv, PI: pi_f, M: lonv, lon_p: lonv}, [hook])
+                if k is UNKNOWN or not isinstance(k, int) or not (0 <= k < 4):
+                    bad = ("unknown", lonv, k)
+                    break
+                if order[k] != first:
+                    bad = ("differs", lonv, order[k], first)
+                    break
+            if bad is None:
+                run.holds("C12.R2", f, n, "alternative level-1 selection agrees with the scoring loop at all %d sample longitudes" % len(claims))
+            elif bad[0] == "unknown":
+                run.undecided("C12.R2", f, n, "cannot evaluate the alternative level-1 selection %s" % show(idx)[:100], kind="alternative-return")
+            else:
+                run.violated("C12.R2", f, n, "for longitude %g deg a lookup under %s returns the level-1 tile (1,%d,%d), but deeper lookups start their descent from (1,%d,%d): "
+                             "the tiles found for increasing depth are not nested" % (float(bad[1] / pi_f * 180), show(boolalg.conj(pc))[:60], bad[2][0], bad[2][1], bad[3][0], bad[3][1]),
+                             kind="level1-selection-differs")
     # ---- R4 score
     hs = project.fn(T + "._left_of_half_space_score")
     run.note_func(hs)
